@@ -213,7 +213,10 @@ impl Vcs {
                 branch,
                 subpath: _,
                 // TODO: Proper URL encoding
-            } => Some(format!("{},branch={}", repo_url, branch.as_ref().unwrap())),
+            } => Some(match branch {
+                Some(branch) => format!("{},branch={}", repo_url, branch),
+                None => repo_url.clone(),
+            }),
             Vcs::Bzr {
                 repo_url,
                 subpath: _,
